@@ -255,9 +255,26 @@ package ring
 //@   property C01
 //@   ensures result != nil && result.count == 0 && isnil(result.setMap) && len(result.setSlice) == 0
 //@
+//@ # extCnt(op, s, n): how many of the first n instances of s are in a state the operation declares as extending the set
+//@ pure func extCnt(op Operation, s []InstanceDesc, n int) int = n <= 0 ? 0 : extCnt(op, s, n - 1) + (Operation.ShouldExtendReplicaSetOnState(op, s[n-1].State) ? 1 : 0)
+//@ lemma extCntPrefix(op Operation, a []InstanceDesc, b []InstanceDesc, n int)
+//@   property C01
+//@   requires 0 <= n && n <= len(a) && n <= len(b) && (forall j int :: 0 <= j && j < n ==> a[j] == b[j])
+//@   ensures extCnt(op, a, n) == extCnt(op, b, n)
+//@   induction on n
+//@
 //@ func Ring.findInstancesForKey
 //@   property C01 C05
 //@   requires ringRep(r) && len(r.ringTokens) > 0 && replicationFactor >= 1
+//@   ghost var prevI []InstanceDesc = havoc
+//@   loop 1 head prevI := instances
+//@   loop 1 end use extCntPrefix(op, prevI, instances, len(prevI))
+//@   # without an instance filter every walked instance is returned: the target size is the replication factor plus one
+//@   # for each returned instance in an extending state, and (without zones) the walk only stops short of it when every
+//@   # token has been visited
+//@   loop 1 invariant accounting: instanceFilter == nil ==> len(instances) == distinctHosts.count && replicaSetSize == replicationFactor + extCnt(op, instances, len(instances))
+//@   at exit: assert accounting: instanceFilter == nil && r1 == nil ==> replicaSetSize == replicationFactor + extCnt(op, r0, len(r0))
+//@   at exit: assert complete: instanceFilter == nil && r1 == nil && !r.cfg.ZoneAwarenessEnabled ==> len(r0) >= min(maxInstances, replicaSetSize) || iterations >= len(r.ringTokens)
 //@   ensures  consistent: r1 == nil
 //@   ensures  bound: len(r0) <= len(r.ringTokens)
 //@   loop 0 invariant len(totalHostsPerZone) == len(r.ringZones) && len(examinedHostsPerZone) == len(r.ringZones) && len(foundHostsPerZone) == len(r.ringZones)
